@@ -20,7 +20,7 @@ ASSUMPTIONS = [
     "temporary upload names (*.tmp) are counted, not judged",
 ]
 MONITORS = "store auditor after every step and inside a post-hook on HashFileDB.add (audits the receiving store after every add call)"
-REQUIRED_COUNTERS = ["migrations_followed_through_a_callback", "stores_opened_through_cwd_relative_path", "downloads_failing_half_way", "inode_only_swaps", "persistent_workspace_steps", "dirs_with_several_large_files", "steps", "audits_after_step", "audits_after_add", "objects_rehashed", "dir_objects_reencoded", "op/stage-dir", "op/stage-file",
+REQUIRED_COUNTERS = ["indexes_saved_again_after_being_extended", "migrations_followed_through_a_callback", "stores_opened_through_cwd_relative_path", "downloads_failing_half_way", "inode_only_swaps", "persistent_workspace_steps", "dirs_with_several_large_files", "steps", "audits_after_step", "audits_after_add", "objects_rehashed", "dir_objects_reencoded", "op/stage-dir", "op/stage-file",
                      "op/upload-stage", "op/add", "op/transfer", "op/save", "op/migrate", "op/gc", "staged_directory_ids_checked", "restaged_workspace_ids_checked", "saves_over_two_data_roots", "op/checkout", "op/verify-rotten", "migrations_rerun", "op/pws-stage", "op/pws-edit", "op/pws-stage-only", "local_mode_checks"]
 
 
@@ -286,6 +286,29 @@ def run_shard(ctx):
                         p = new_ws()
                         idx = imd5(ibuild(p, fs), state=odb.state)
                         isave(idx, odb=odb)
+                        subdirs_ = sorted(k_ for k_, e_ in idx.iteritems() if e_.meta and e_.meta.isdir and k_)
+                        if subdirs_ and rng.random() < 0.5:
+                            # the same index handle is extended (a file appears in one of its directories) and saved a second time: the
+                            # identifiers it then records for its directories are those of what the directories hold now
+                            dk_ = rng.choice(subdirs_)
+                            nk_ = (*dk_, "added-after-the-first-save")
+                            with open(os.path.join(p, *nk_), "wb") as f:
+                                f.write(gen.small_content(rng) + b"later")
+                            for k_, e_ in imd5(ibuild(p, fs), state=odb.state).iteritems():
+                                if k_ == nk_:
+                                    idx[nk_] = e_
+                            isave(idx, odb=odb)
+                            res.count("indexes_saved_again_after_being_extended")
+                            rec.append("saved-again")
+                            from ..oracle import canonical_dir_oid as _cdo, walk_files as _wf
+
+                            for k_, e_ in idx.iteritems():
+                                if e_.meta and e_.meta.isdir and e_.hash_info and e_.hash_info.value and nk_[: len(k_)] == k_:
+                                    want_ = _cdo({"/".join(fk_): H("md5", fv_) for fk_, fv_ in _wf(os.path.join(p, *k_)).items() if fv_ is not None})
+                                    if e_.hash_info.value != want_:
+                                        res.violation("saved-directory-id-is-not-that-of-its-contents/second-save", f"after the second save the index records {e_.hash_info.value} for "
+                                                      f"{'/'.join(k_)}, whose files make it {want_}", case=case, detail={"history": hist})
+                                        break
                     elif op == "migrate":
                         # (also between two stores of the same algorithm, which may share the hash state)
                         others = [s for s in stores if s is not st and not (algo == "md5" and s["algo"] == "md5-dos2unix")]
